@@ -51,8 +51,9 @@ CHECKS = {
     note="tf.data operators and the Rust reader's timing are specified externals (outputs compared). Which shards are selected is C12/C04.",
     ref="DESIGN.md §5 C02"),
  "C03": dict(
-    technique="Lean 4 proof (unshuffled output equals a function of the on-disk state for every file_parallelism; session write order from the M-FILL conservation invariant) + end-to-end sequence comparison across passes, reopen, parallelism and delays; batch-structure correspondence",
-    text="C03_sync/_concurrent/_async_unshuffled_eq, C03_interfaces_agree, C03_session_order. The real interfaces are run with shuffle=0 over two passes and a reopened handle, "
+    technique="Lean 4 proof (unshuffled output equals a function of the on-disk state for every file_parallelism; session write order from the M-FILL conservation invariant; composed end to end M-FILL -> M-TREE -> M-PIPE: after a filler session every unshuffled reader yields the previous examples followed by the accepted writes in write order) + end-to-end sequence comparison across passes, reopen, parallelism and delays; batch-structure correspondence",
+    text="C03_sync/_concurrent/_async_unshuffled_eq, C03_interfaces_agree, C03_session_order; SedpackProps/C03System.lean: C03_filler_session_end_to_end, C03_enumeration_of_flat_split, C03_reader_sees_write_order "
+         "(the three models composed: write_example ... write_config ... as_numpy_iterator*, for every operation sequence, history, shard size and read parallelism). The real interfaces are run with shuffle=0 over two passes and a reopened handle, "
          "file_parallelism 1..#shards+2 and seeded loader delays; sequences must equal the write order; the executor batches are compared with Iter.batches.",
     note="Executor.map ordering, tf.data deterministic interleave and the Rust channel order are specified externals; the shard enumeration order of nested lists is proved with M-TREE (C04 file).",
     ref="DESIGN.md §5 C03"),
